@@ -10,7 +10,9 @@ package rest
 //   begin kind=rest chain=<native|custom> mw=<11 x 0|1> ncm=<n> nuse=<n> cb=<0|1> to=<ms> w=<word> groups=<g>,<g>,…
 //         g = - | opt(+opt)*    opt = jwt | jwtt | sig | sigl | sign | sigs | sig2 | sigb | sigx | sigd | pfx | prio | mb | to
 //         the signature options differ in the PrivateKeys of the group: sig/sigl {good:k1}, sig2 {alt:k2}, sigb {good:k1, alt:k2},
-//         sigx {good:k2} (the fingerprint of another group with ANOTHER key file), sigd [{good:k2},{good:k1}] (later entry wins)
+//         sigx {good:k2} (the fingerprint of another group with ANOTHER key file), sigd [{good:k2},{good:k1}] (later entry wins),
+//         sigt {good:k1} with a tolerance of 60 s instead of 3600 s, sigm {good:<a key file that does not exist>};
+//         jwtte = WithJwtTransition(secret, "")
 //   bind                                   engine.bindRoutes  => ok | err=signature-config | err=other
 //   req g=<i> r=<a|b> tok=<class> cs=<class> uid=<n> now=<unix>
 //     => token facts (as the jwt sections) fp=<hex fingerprint sent|-> enc=<k1|k2|-> csok=<0|1> ran= status= ctx= cm= use= ucb= scb= seen=
@@ -82,6 +84,8 @@ mbxz2JBlGi+ww2a0OlHeWSq5iqm2Rb8EQsikUO7Tg9hvjcoccFaJWliK5wHSPolG
 rGlcYiqcfaRP1+JJhy2XJQJBAJegvLRnarPKj19d2bJqTRaZgFn9C94wlyUU7BKB
 H+9BjWeEfQHbf80ZzUw9TtuGaT5aHBpQIzUHgzxG2hQheHo=
 -----END RSA PRIVATE KEY-----`
+
+const c18rShortTol = 60
 
 const c18rTol = 3600 // seconds; the requests stay far away from the edges of the window (those are the handler harness' business)
 
@@ -251,7 +255,7 @@ func c18rTokenFacts(auth, secret, prev string) (string, map[string]any) {
 
 // fact: the X-Content-Security header carries a signature that covers the request's timestamp (within the tolerance),
 // method, path, query and body digest under a secret encrypted to a configured key (stdlib only; standard header form)
-func c18rCsFact(r *http.Request, body []byte, keys map[string]*rsa.PrivateKey, now int64) bool {
+func c18rCsFact(r *http.Request, body []byte, keys map[string]*rsa.PrivateKey, now, tol int64) bool {
 	fields := func(s string) map[string]string {
 		m := map[string]string{}
 		for _, f := range strings.Split(s, ";") {
@@ -299,7 +303,7 @@ func c18rCsFact(r *http.Request, body []byte, keys map[string]*rsa.PrivateKey, n
 	if err != nil {
 		return false
 	}
-	if d := now - ts; d > c18rTol || -d > c18rTol {
+	if d := now - ts; d > tol || -d > tol {
 		return false
 	}
 	dg := sha256.Sum256(body)
@@ -355,12 +359,17 @@ type c18rGroup struct {
 	prefix string
 	idx    int
 	keys   [][2]string // the PrivateKeys of the group's WithSignature, in order: fingerprint, key name (k1 | k2)
+	tol    int64       // the Expiry of the group's WithSignature, seconds
 }
 
 // the group's own decrypters: fingerprint -> key (a repeated fingerprint: the later entry wins)
 func (g *c18rGroup) keyMap() map[string]*rsa.PrivateKey {
 	m := map[string]*rsa.PrivateKey{}
 	for _, k := range g.keys {
+		if k[1] == "missing" { // no such key file: nothing can be encrypted to it
+			delete(m, k[0])
+			continue
+		}
 		m[k[0]] = c18rKeyOf(k[1])
 	}
 	return m
@@ -497,13 +506,18 @@ func c18rNewSrv(cfg verifh.Cfg, dir string) *c18rSrv {
 			g.opts = strings.Split(gs, "+")
 		}
 		var opts []RouteOption
+		tol := int64(c18rTol)
 		withKeys := func(strict bool, ks ...[2]string) RouteOption {
 			var confs []PrivateKeyConf
 			for _, k := range ks {
-				confs = append(confs, PrivateKeyConf{Fingerprint: k[0], KeyFile: keyFiles[k[1]]})
+				file, ok := keyFiles[k[1]]
+				if !ok {
+					file = filepath.Join(dir, "c18r-no-such-file.pem")
+				}
+				confs = append(confs, PrivateKeyConf{Fingerprint: k[0], KeyFile: file})
 			}
-			g.keys = ks // a later WithSignature replaces the whole setting
-			return WithSignature(SignatureConf{Strict: strict, Expiry: c18rTol * time.Second, PrivateKeys: confs})
+			g.keys, g.tol = ks, tol // a later WithSignature replaces the whole setting
+			return WithSignature(SignatureConf{Strict: strict, Expiry: time.Duration(tol) * time.Second, PrivateKeys: confs})
 		}
 		for _, o := range g.opts {
 			switch o {
@@ -525,6 +539,15 @@ func c18rNewSrv(cfg verifh.Cfg, dir string) *c18rSrv {
 				opts = append(opts, withKeys(true, [2]string{"good", "k2"}))
 			case "sigd":
 				opts = append(opts, withKeys(true, [2]string{"good", "k2"}, [2]string{"good", "k1"}))
+			case "sigt": // a short tolerance: what a neighbouring group still accepts is stale here
+				tol = c18rShortTol
+				opts = append(opts, withKeys(true, [2]string{"good", "k1"}))
+				tol = c18rTol
+			case "sigm": // a key file that cannot be loaded: the group must not be bound at all
+				opts = append(opts, withKeys(true, [2]string{"good", "missing"}))
+			case "jwtte": // WithJwtTransition with an EMPTY previous secret: no previous secret is in force (any more)
+				opts = append(opts, WithJwtTransition(g.secret, ""))
+				g.jwt, g.trans = true, false
 			case "sign":
 				opts = append(opts, withKeys(false))
 			case "sigs":
@@ -621,6 +644,10 @@ func (e *c18rSrv) csHeader(g *c18rGroup, class, method, path, query string, body
 		ts = now - c18rTol - 100
 	case "future":
 		ts = now + c18rTol + 100
+	case "stale-short": // inside the long tolerance, outside the short one
+		ts = now - 10*c18rShortTol
+	case "future-short":
+		ts = now + 10*c18rShortTol
 	case "unknown-fp":
 		fp = "nobody"
 	case "secret-to-other-key":
@@ -634,7 +661,7 @@ func (e *c18rSrv) csHeader(g *c18rGroup, class, method, path, query string, body
 			if len(o.keys) == 0 {
 				continue
 			}
-			if f, k := o.validPair(); !g.accepts(f, k) {
+			if f, k := o.validPair(); k != "missing" && !g.accepts(f, k) {
 				fp, enc = f, k
 				break
 			}
@@ -731,7 +758,7 @@ func c18rStart(dir string) func(cfg verifh.Cfg) (func(op []string) string, func(
 				}
 				facts, claims := c18rTokenFacts(auth, g.secret, prev)
 				csok := 0
-				if c18rCsFact(r, body, g.keyMap(), wall) {
+				if c18rCsFact(r, body, g.keyMap(), wall, g.tol) {
 					csok = 1
 				}
 				e.ran, e.cm, e.use, e.ucb, e.scb, e.seen, e.ctx, e.claims = 0, 0, 0, 0, 0, nil, map[string]string{}, claims
@@ -759,11 +786,12 @@ var c18rTokClasses = []string{"none", "valid", "valid-hs512", "prev", "other-gro
 
 var c18rCsClasses = []string{"none", "valid", "stale", "future", "unknown-fp", "secret-to-other-key", "other-body",
 	"other-method", "other-path", "other-query", "bad-sig", "other-hmac-key", "fp-good-k1", "fp-good-k2", "fp-alt-k1", "fp-alt-k2",
-	"other-group-key"}
+	"other-group-key", "stale-short", "future-short"}
 
 var c18rGroupKinds = []string{"-", "jwt", "jwtt", "sig", "sigl", "sign", "jwt+sig", "jwtt+sig", "jwt+sigl", "sig+jwt", "pfx", "jwt+pfx",
 	"pfx+jwtt", "sig+pfx", "pfx+jwt+sig", "prio+jwt", "mb+sig", "to+jwtt", "jwt+jwtt", "jwtt+jwt", "prio", "mb+to",
-	"sig2", "sigb", "sigx", "sigd", "jwt+sig2", "sig+sig2", "sig2+sig", "sigb+pfx"}
+	"sig2", "sigb", "sigx", "sigd", "jwt+sig2", "sig+sig2", "sig2+sig", "sigb+pfx", "sigt", "jwt+sigt", "sigt+sig", "sig+sigt", "jwtte",
+	"jwtt+jwtte", "jwtte+jwtt", "jwtte+sig"}
 
 func c18rWord(r *verifh.Rng, n int) string {
 	const al = "abcdefghijklmnopqrstuvwxyz0123456789"
@@ -815,7 +843,7 @@ func c18rGenSection(r *verifh.Rng, idx int, kindPlan *[]int) verifh.Section {
 			gs = append(gs, "-")
 		}
 		pair := [][2]string{{"sig", "sig2"}, {"sig2", "sig"}, {"sig", "sigx"}, {"sigx", "sig"}, {"sig2", "sigb"}, {"sigb", "sigx"},
-			{"sigl", "sig2"}, {"jwt+sig", "sig2+pfx"}, {"sigd", "sigx"}, {"sig2", "sigd"}}[(idx/3)%10]
+			{"sigl", "sig2"}, {"jwt+sig", "sig2+pfx"}, {"sigd", "sigx"}, {"sig2", "sigd"}, {"sig", "sigt"}, {"sigt", "sig"}}[(idx/3)%12]
 		at := r.Intn(ngroups - 1)
 		gs[at], gs[at+1] = pair[0], pair[1]
 		if ngroups > 2 && r.Chance(1, 2) { // not adjacent, any order of binding
@@ -833,6 +861,9 @@ func c18rGenSection(r *verifh.Rng, idx int, kindPlan *[]int) verifh.Section {
 	strictNoKeys := r.Chance(1, 12)
 	if strictNoKeys {
 		gs[r.Intn(len(gs))] = r.PickS("sigs", "jwt+sigs", "sigs+pfx")
+	}
+	if !strictNoKeys && r.Chance(1, 14) {
+		gs[r.Intn(len(gs))] = r.PickS("sigm", "jwt+sigm", "sigm+pfx")
 	}
 	to := r.Pick(0, 0, 600000)
 	cfg := fmt.Sprintf("kind=rest chain=%s mw=%s ncm=%d nuse=%d cb=%d to=%d w=%s groups=%s", chainKind, mw, ncm, r.Pick(0, 0, 1, 2),
@@ -860,7 +891,9 @@ func c18rGenSection(r *verifh.Rng, idx int, kindPlan *[]int) verifh.Section {
 		case 6, 7, 8: // one change of the signature
 			cs = c18rCsClasses[cplan%len(c18rCsClasses)]
 			cplan++
-			if nkeyed > 1 && hasSig && r.Chance(1, 3) {
+			if strings.Contains(strings.Join(gs, ","), "sigt") && hasSig && r.Chance(1, 4) {
+				cs = r.PickS("stale-short", "future-short")
+			} else if nkeyed > 1 && hasSig && r.Chance(1, 3) {
 				cs = r.PickS("other-group-key", "other-group-key", "fp-good-k1", "fp-good-k2", "fp-alt-k1", "fp-alt-k2")
 			}
 		case 9: // no credential at all
